@@ -230,6 +230,8 @@ def cell_forms(rng, ty, v, int8=False):
         out.append(("np.str_", np.str_(s), cps, 0))
         out.append(("np.bytes_", np.bytes_(v), cps, 0))       # iterdata() decodes a numpy.bytes_ to str
         out.append(("bytes", bytes(v), "(b %s)" % hexb(v), 0))
+        out.append(("0d:U", np.array(s), cps, 0))                # a 0-d array holding the string
+        out.append(("0d:S", np.array(bytes(v)), "(b %s)" % hexb(v), 0))
         return out
     for c in chars_for(ty, [v]):
         if int8 and c != "b":
